@@ -320,11 +320,18 @@ def warm_replay(case):
     return finish_warm(ex, case.get("seed", 0), case.get("prelude", []), final)
 
 
+def _final_order(seed, i):
+    """Seeded accessor order of the closing observation (reading order is history)."""
+    order = list(W.ALL_READS)
+    C.run_rng((seed or 0) * 1000003 + i).shuffle(order)
+    return order
+
+
 def finish_warm(ex, seed, pre, final):
     final_obs = {}
     for i in final:
         if W.is_url(ex.slots[i]):
-            final_obs[str(i)] = W.deep(ex.slots[i])
+            final_obs[str(i)] = W.deep(ex.slots[i], _final_order(seed, i))
             ex.violations.extend(ex.tr.check(len(ex.ops), {"op": "final_observation"}))
     return {
         "case": {"machine": "c08", "seed": seed, "knobs": ex.knobs, "ops": ex.ops, "prelude": pre, "final": final},
@@ -338,7 +345,7 @@ def finish_warm(ex, seed, pre, final):
     }
 
 
-def cold_eval(ops, k, final):
+def cold_eval(ops, k, final, seed=0):
     """Pristine process: execute only the derivation closure of op k, then op k."""
     need = W.closure(ops, k)
     slots = [None] * len(ops)
@@ -351,7 +358,7 @@ def cold_eval(ops, k, final):
         if i == k:
             out = o
             if final:
-                obs = W.deep(res) if W.is_url(res) else None
+                obs = W.deep(res, _final_order(seed, k)) if W.is_url(res) else None
             elif W.is_url(res) and op.get("obs") is not None:
                 obs = W.deep(res, op["obs"])
     return [out, obs]
@@ -377,7 +384,7 @@ def compare(case, warm):
             viols.append(d)
     for key, wobs in warm["final_obs"].items():
         i = int(key)
-        cold = in_fork(cold_eval, ops, i, True, timeout=60)
+        cold = in_fork(cold_eval, ops, i, True, case.get("seed", 0), timeout=60)
         nforks += 1
         if cold[1] != wobs:
             viols.append({"kind": "history_dependent_final_observation", "at_op": i, "op": ops[i]["op"],
